@@ -10,6 +10,7 @@ import itertools
 
 from specs import core as S
 from vlib import domains as D
+from props import containers  # noqa: F401  (registers its checks before the worker pool is forked)
 from vlib.core import bad, check, ok
 
 LEVEL = "exploration"
@@ -267,4 +268,5 @@ def run(ctx):
     ctx.run("C04.cli_lexmin", cl_in, chunk=10, rule="permtools lexmin through cli.get_lex_min on the same bases, 0- and 1-based, several separators")
     ctx.assumptions += ["B layer: bounded; spec = affine maps of the square on doubled coordinates (points even, cell centres odd)"]
     from props import dlayer
+    containers.run_for(ctx, "C04")
     dlayer.run(ctx, "C04")
